@@ -8,6 +8,7 @@ import (
 
 	"verif/shim/vnet"
 	"verif/shim/vsched"
+	"verif/shim/vsync"
 	"verif/world"
 )
 
@@ -36,6 +37,9 @@ type callRec struct {
 	arg  string
 	res  *string
 	done bool
+	// what the caller saw at the moment the completion was delivered to it
+	got    erpc.CallCmd
+	atDone string
 }
 
 // checkCall applies the C02 per-call oracle after the system is quiescent.
@@ -46,14 +50,24 @@ func checkCall(i int, c *callRec, mustOK bool) {
 	if !world.IsDone(c.cmd) {
 		vsched.Failf("call %d never completed (Done not closed) after the terminal event; %s", i, vsched.BlockedDesc())
 	}
-	if n := len(c.ch); n != 1 {
-		vsched.Failf("call %d delivered %d times to the completion channel (want exactly 1)", i, n)
+	got := c.got
+	if got != nil {
+		if n := len(c.ch); n != 0 {
+			vsched.Failf("call %d delivered %d more times to the completion channel after the caller received it", i, n)
+		}
+	} else {
+		if n := len(c.ch); n != 1 {
+			vsched.Failf("call %d delivered %d times to the completion channel (want exactly 1)", i, n)
+		}
+		got = <-c.ch
 	}
-	got := <-c.ch
 	if got != c.cmd {
 		vsched.Failf("call %d: completion channel delivered a different CallCmd", i)
 	}
 	st := c.cmd.Status()
+	if c.atDone != "" && c.atDone != world.StatStr(st)+" "+deref(c.res) {
+		vsched.Failf("call %d: the caller saw %s when the completion was delivered, later the call reads %s %s (a completed call changed)", i, c.atDone, world.StatStr(st), deref(c.res))
+	}
 	if st.OK() {
 		want := "echo:" + c.arg
 		if c.res == nil || *c.res != want {
@@ -84,6 +98,7 @@ func c02Live(p Params) func() {
 	proto := p.Get("proto", "raw")
 	n := p.Int("calls", 1)
 	event := p.Get("event", "none")
+	waitChan := p.Get("wait", "done") == "chan"
 	var reqLen, repLen int
 	body := func(calib bool) func() {
 		return func() {
@@ -115,7 +130,15 @@ func c02Live(p Params) func() {
 				calls[i] = c
 				ths = append(ths, world.Go(fmt.Sprintf("caller%d", i), func() {
 					c.cmd = cs.AsyncCall("/echo_handler", &c.arg, c.res, c.ch)
-					world.WaitDone(c.cmd)
+					if waitChan {
+						// consume the completion from the caller's own channel and look at it at once
+						vsync.AwaitRecv(c.ch)
+						c.got = <-c.ch
+						c.atDone = world.StatStr(c.got.Status()) + " " + deref(c.res)
+					} else {
+						world.WaitDone(c.cmd)
+						c.atDone = world.StatStr(c.cmd.Status()) + " " + deref(c.res)
+					}
 					c.done = true
 				}))
 			}
